@@ -51,6 +51,8 @@ GRAMS = {
     'g10': "start: secret=/[a-z0-9]+/ c=`{secret}!` $ ;\n",
     'g11': "start: n=/[a-z0-9]+/ c=`{secret}?` d=`x{n}y` $ ;\n",
     'g8': "start: {v}* $ ;\n\nv: 'b' @:@bool | 'i' @:@int | 'f' @:@float ;\n",
+    # node classes named like the classes of the object-model machinery itself
+    'g12': "start::SynthNode: x=/[a-z]+/ {y+=item} $ ;\n\nitem::Node: /[0-9]+/ ;\n",
 }
 TEXTS = ['a b b', 'a', 'x, y', 'x', 'foo if', 'Foo BAR', '1+2+3', '1+', 'a b', 'a\nb', 'x 1', 'A B', 'let q r', 'let let', '', 'x,', 'A',
          'i 1 b true f 1.0', 'b true i 1', 'f 1.0 b true i 1', 'i 0 b false f 0.0', 'b false i 0']
@@ -417,7 +419,7 @@ def run_history(history):
 
 OWN_TEXTS = {'g1': ['a b b', 'a'], 'g5': ['a b', 'x'], 'g6': ['x 1', '1'], 'g10': ['hunter2', 'abc'], 'g11': ['abc', 'zz9'],
              'g8': ['i 1 b true f 1.0', 'b true i 1', 'f 1.0 b true i 1', 'i 0 b false f 0.0', 'b false i 0'],
-             'g4': ['1+2+3', '1+'], 'g7': ['let q r', 'let let', 'let LET q', 'LET q'], 'g3': ['foo if', 'Foo BAR', 'foo IF', 'If'], 'g2': ['x, y', 'x', 'x,'], 'g9': ['foo bar', 'x']}
+             'g4': ['1+2+3', '1+'], 'g7': ['let q r', 'let let', 'let LET q', 'LET q'], 'g3': ['foo if', 'Foo BAR', 'foo IF', 'If'], 'g2': ['x, y', 'x', 'x,'], 'g9': ['foo bar', 'x'], 'g12': ['abc', 'abc 1 2']}
 
 
 def pick_text(rnd, g):
